@@ -13,6 +13,7 @@ Values:
 Memory: path.heap[obj_id] = [root]; root is a leaf value or nested lists mirroring
 the Go type.  Types named in ex.opaque are leaves holding one abstract value.
 """
+import time
 import itertools, sys
 from .ir import Type
 
@@ -186,6 +187,7 @@ class Executor:
         self.trace_branches = False
         self.log_reads = False
         self.max_steps = 5_000_000
+        self.deadline = None      # wall-clock limit for one exploration (time.time() value)
         self.call_hook = None     # optional callable(ex, path, fname, args) for call logging
         self.base_heap = {}       # heap snapshot after init (globals)
         self.merge_funcs = set()  # functions whose symbolic branches are merged at the post-dominator
@@ -483,6 +485,8 @@ class Executor:
         done = []
         work = [path]
         while work:
+            if self.deadline is not None and time.time() > self.deadline:
+                raise ExecError("exploration time budget exceeded (%d paths pending)" % len(work))
             p = work.pop()
             forks = self.run(p)
             if forks:
